@@ -450,7 +450,14 @@ func (c *conn) WriteTo(w io.Writer) (n int64, err error) {
 }
 
 func (c *conn) Flush() error {
-	return c.loop.write(c)
+	err := c.loop.write(c)
+	if err == nil && c.opened && !c.loop.engine.opts.EdgeTriggeredIO && !c.outboundBuffer.IsEmpty() {
+		// The kernel took only a part of the buffered data. In level-triggered mode the write
+		// interest is not necessarily armed (the data may have come in through ReadFrom),
+		// so arm it, otherwise the leftover would never be flushed.
+		err = c.loop.poller.ModReadWrite(&c.pollAttachment, false)
+	}
+	return err
 }
 
 func (c *conn) InboundBuffered() int {
